@@ -55,7 +55,11 @@ func H_C15_Report(v *sym.V) {
 	b := g.BuildUpTo("e", v.Param("D", 2), leaves, gen.AllWrappers)
 	e := b.Err
 	tag := ""
-	switch v.Choice("stage", 4) {
+	switch v.Choice("stage", 5) {
+	case 4:
+		// two stack annotations with identical frames
+		e = errors.WithStack(errors.WithStack(e))
+		tag = "/twostacks"
 	case 1:
 		e = wire.Hop(e)
 		tag = "/decoded"
